@@ -417,7 +417,11 @@ class Model:
             c = self.getfiber(ins["f"])
             st = c.status
             x = ins["v"]
-            if st in (NEW, ALIVE):
+            if st in (NEW, ALIVE, OK):
+                # :dead is refused like :new and :alive (since /repo commit 79d4635; before that the
+                # interpreter "returned" without popping the frame)
+                if st == OK:
+                    self.probe("propagate_from_dead_fiber")
                 raise Sig(ERROR, S("cannot propagate from fiber with status :%s" % STATUS[st]))
             if st == OK or st in TERMINAL:
                 self.probe("propagate_finished")
